@@ -122,7 +122,15 @@ def run_case(case):
             kw["initial"] = "I" if evkind == "value" else "Idle"
         try:
             ev = await client.waitforevent(**kw)
-            results[i] = ("E", event_ids.get(id(ev), "?"), int(round(loop.time())))
+            now = int(round(loop.time()))
+            if no_tagger:
+                # no observer callback at all: the event is identified by the instant of completion (the first matching
+                # event of the batch delivered at that instant)
+                here = [fl for t_, fl in case["batches"] if t_ == now]
+                tag = "%d/%d" % (now, here[0].index(True)) if len(here) == 1 and True in here[0] else "?"
+                results[i] = ("E", tag, now)
+            else:
+                results[i] = ("E", event_ids.get(id(ev), "?"), now)
         except Exception as e:  # noqa
             results[i] = ("T" if "Timeout" in str(e) else "X:" + type(e).__name__, None, int(round(loop.time())))
 
@@ -136,7 +144,8 @@ def run_case(case):
     # "tagger": "last" - the waits are the client's very FIRST registrations (an application that only ever waits), the
     # observer registers after them; "first" (default) - the application registered a listener before it waits
     tagger_last = case.get("tagger") == "last"
-    if not tagger_last:
+    no_tagger = case.get("tagger") == "none"          # the waits are the ONLY registrations the client ever sees (no wildcard listener)
+    if not tagger_last and not no_tagger:
         client.onevent(callback=tagger)
 
     async def main():
@@ -147,7 +156,7 @@ def run_case(case):
             loop.call_soon(lambda: client.onevent(callback=tagger))      # runs after the first step of every wait
         await asyncio.sleep(case["horizon"] + 0.5)
         pending = [not t.done() for t in tasks]
-        ncb = len(client.callbacks) - 1
+        ncb = len(client.callbacks) - (0 if no_tagger else 1)
         for t in tasks:
             t.cancel()
         return pending, ncb
@@ -213,6 +222,8 @@ def gen_cases(rng, tier):
         yield case
         if len(case["waits"]) > 1 or n % 3 == 0:
             yield dict(case, tagger="last")
+        if (len(case["waits"]) > 1 or n % 3 == 1) and len({t_ for t_, _ in case["batches"]}) == len(case["batches"]):
+            yield dict(case, tagger="none")
 
 
 def _gen_cases(rng, tier):
